@@ -192,6 +192,7 @@ func checkC14(c *Ctx) {
 	checkLoopCarriedLocations(c, r.Pkg)
 	checkMirrorLoops(c, r)
 	checkBalancedPredicates(c, r)
+	checkArgumentRoles(c, "C14.R0.argument-roles", r.Pkg, "diff", 3)
 	// the names the JSON report gives to codes: a deleted-X must not be called added-X
 	c.Rule("C14.R5.toStringSpecChangeCode", "the JSON name of each change code is its own (total, injective, no row carrying another constant's identifier): a deleted-X is never reported as added-X", 150)
 	c.Rule("C14.R5.toLongStringSpecChangeCode", "the text of each change code is its own (total, injective)", 150)
